@@ -50,6 +50,9 @@
 #endif
 
 #if VP_MODE == 1
+#  ifdef VP_K
+#    define VP_REF_FIELD_LIMIT VP_K
+#  endif
 #  define VP_REF_MAX (VP_N / 3 + 1)
 #else
 #  define VP_REF_MAX 3
@@ -391,7 +394,7 @@ harness(void) {
   /* inputs that the reference splits into at most VP_K fields (the malformed
      last one included); lcdb's loop bound is VP_K iterations as well, so a
      disagreement about the number of fields is reported, not cut off */
-  VP_ASSUME(r.nfields <= VP_K);
+  VP_ASSUME(!r.toomany);
 #endif
 
   ldb_edit_init(&e);
